@@ -147,3 +147,6 @@ Definition srt_mon (f0 r : N) (st : status) (f1 : N) : bool := status_eqb st StO
 Definition sf_expected (f0 : N) (mnop : bool) : N :=
   N.lor f0 (mask_of_names vol_spec (vol_always ++ (if mnop then vol_if_mnop else []))%list).
 Definition sf_mon (f0 : N) (mnop : bool) (st : status) (f1 : N) : bool := status_eqb st StOk && (f1 =? sf_expected f0 mnop).
+
+(* 8.2.40: the flag octet is octet 5 of the Volume Measurement IE, i.e. the first payload octet *)
+Definition vol_ie_mon (flags payload0 : N) : bool := payload0 =? flags.
